@@ -66,7 +66,7 @@ Lemma hce_stale cfg st s e q p :
   (current st = None \/ exists c, current st = Some c /\ c_seq c <> q) ->
   handle_call_event cfg st s e q p = (st, []).
 Proof.
-  intros H. unfold handle_call_event. destruct (current st) as [c|]; [|reflexivity].
+  intros H. unfold handle_call_event, handle_call_event_with. destruct (current st) as [c|]; [|reflexivity].
   destruct H as [H|[c' [H Hq]]]; [discriminate|]. inv H.
   destruct (c_seq c' =? q) eqn:E; [apply Z.eqb_eq in E; contradiction|reflexivity].
 Qed.
@@ -172,13 +172,14 @@ Proof. intros x f [H|[]]. inv H. split; [reflexivity|eexists; reflexivity]. Qed.
 
 Lemma hce_roles cfg st s e q p :
   (handle_call_event cfg st s e q p = (st, []) \/ handle_call_event cfg st s e q p = (st, [(s, FCtrl 403 None)])) \/
-  exists c, current st = Some c /\ c_seq c = q /\ lookup (user_of cfg s) (users st) <> None /\ role_ok cfg c s e.
+  exists c, current st = Some c /\ c_seq c = q /\ participant st (user_of cfg s) = true /\ role_ok cfg c s e.
 Proof.
-  unfold handle_call_event.
+  unfold handle_call_event, handle_call_event_with.
   destruct (current st) as [c|] eqn:Hc; [|auto].
   destruct (c_seq c =? q) eqn:Hq; cbn; [|auto]. apply Z.eqb_eq in Hq.
-  destruct (lookup (user_of cfg s) (users st)) eqn:Hu; [|auto].
-  assert (Hne : lookup (user_of cfg s) (users st) <> None) by (rewrite Hu; discriminate).
+  destruct (lookup (user_of cfg s) (users st)) as [pd|] eqn:Hu; [|auto].
+  destruct (p_deleted pd) eqn:Hdel; [auto|].
+  assert (Hne : participant st (user_of cfg s) = true) by (unfold participant; rewrite Hu, Hdel; reflexivity).
   destruct e.
   - (* ringing *)
     destruct (accepted c) eqn:Ha; [auto|].
@@ -252,7 +253,7 @@ Qed.
 Lemma roles cfg st s e q p st' os :
   step cfg st (OEvent s e q p) = (st', os) ->
   (st' = st /\ quiet s os) \/
-  exists c, current st = Some c /\ c_seq c = q /\ lookup (user_of cfg s) (users st) <> None /\ role_ok cfg c s e.
+  exists c, current st = Some c /\ c_seq c = q /\ participant st (user_of cfg s) = true /\ role_ok cfg c s e.
 Proof.
   intros Hs. apply step_eq in Hs. destruct Hs as [[-> ->]|[-> [-> _]]]; [auto|].
   destruct (event_raw_cases cfg st s e q p) as [E|[E|[E _]]]; rewrite E; cbn [fst snd].
@@ -335,10 +336,11 @@ Lemma hce_outputs cfg st s e q p :
     Forall (event_out_ok cfg st c s e) (snd (handle_call_event cfg st s e q p)) /\
     (length (filter (fun so : out => is_relay (snd so)) (snd (handle_call_event cfg st s e q p))) <= 1)%nat.
 Proof.
-  intros Hne. unfold handle_call_event.
+  intros Hne. unfold handle_call_event, handle_call_event_with.
   destruct (current st) as [c|] eqn:Hc; [|auto].
   destruct (c_seq c =? q) eqn:Hq; cbn [negb]; [|auto]. apply Z.eqb_eq in Hq.
-  destruct (lookup (user_of cfg s) (users st)) eqn:Hu; [|auto].
+  destruct (lookup (user_of cfg s) (users st)) as [pd|] eqn:Hu; [|auto].
+  destruct (p_deleted pd); [auto|].
   assert (Hfwd : forall ev, (ev = EvRinging \/ ev = EvAccept) -> ev = e ->
             event_out_ok cfg st c s e (c_osid c, FInfo ev (c_seq c) (user_of cfg s) (peer_of st (c_ouid c)) None)).
   { intros ev Hev <-. cbn. repeat split; auto. destruct Hev as [-> | ->]; reflexivity. }
@@ -476,10 +478,11 @@ Proof. unfold slot_step. intros H -> ->. exact H. Qed.
 
 Lemma slot_step_hce cfg st s e q p : slot_step st (fst (handle_call_event cfg st s e q p)).
 Proof.
-  unfold handle_call_event.
+  unfold handle_call_event, handle_call_event_with.
   destruct (current st) as [c|] eqn:Hc; [|apply slot_step_refl].
   destruct (negb (c_seq c =? q)); [apply slot_step_refl|].
-  destruct (lookup (user_of cfg s) (users st)); [|apply slot_step_refl].
+  destruct (lookup (user_of cfg s) (users st)) as [pd|]; [|apply slot_step_refl].
+  destruct (p_deleted pd); [apply slot_step_refl|].
   destruct e; try apply slot_step_refl.
   - destruct (accepted c); [apply slot_step_refl|]. destruct (_ || _); apply slot_step_refl.
   - destruct (accepted c); [apply slot_step_refl|]. destruct (_ || _); [apply slot_step_refl|].
@@ -717,10 +720,11 @@ Qed.
 Lemma slot_change_hce cfg st s e q p :
   slot_change cfg st (OEvent s e q p) (fst (handle_call_event cfg st s e q p)).
 Proof.
-  unfold handle_call_event.
+  unfold handle_call_event, handle_call_event_with.
   destruct (current st) as [c|] eqn:Hc; [|left; auto].
   destruct (c_seq c =? q) eqn:Hq; cbn [negb]; [|left; auto]. apply Z.eqb_eq in Hq.
-  destruct (lookup (user_of cfg s) (users st)); [|left; auto].
+  destruct (lookup (user_of cfg s) (users st)) as [pd|]; [|left; auto].
+  destruct (p_deleted pd); [left; auto|].
   destruct e; try (left; cbn; auto; fail).
   - destruct (accepted c); [left; auto|]. destruct (_ || _); left; auto.
   - destruct (accepted c) eqn:Ha; [left; auto|]. destruct (N.eqb (c_osid c) s || N.eqb (c_ouid c) (user_of cfg s)) eqn:Hg; [left; auto|].
@@ -887,12 +891,9 @@ Proof.
 Qed.
 
 Lemma roles_subscribed cfg st s e q p st' os :
-  (forall u pd, lookup u (users st) = Some pd -> p_deleted pd = false) ->
   step cfg st (OEvent s e q p) = (st', os) -> st' <> st -> participant st (user_of cfg s) = true.
 Proof.
-  intros Hd Hs Hne. destruct (roles _ _ _ _ _ _ _ _ Hs) as [[E _]|[c [_ [_ [Hu _]]]]]; [contradiction|].
-  unfold participant. destruct (lookup (user_of cfg s) (users st)) as [pd|] eqn:E; [|contradiction].
-  rewrite (Hd _ _ E). reflexivity.
+  intros Hs Hne. destruct (roles _ _ _ _ _ _ _ _ Hs) as [[E _]|[c [_ [_ [Hu _]]]]]; [contradiction|exact Hu].
 Qed.
 
 Lemma new_call_after_end cfg st o st' os c s content w :
